@@ -1191,19 +1191,6 @@ func TestVerifC01Lab(t *testing.T) {
 			if m.AuthenticatedData && !(tz.secure && dataOK) {
 				goFail = "AD set on a reply that is not authentic up to the trust anchor"
 			}
-			// F9 is tagged by what is OBSERVED, not by the topology alone: the island's own published data came back with
-			// AD=1 (the unsigned DS below the insecure cut was taken as a trust link), or — with the two scripts that forge
-			// exactly that unsigned DS — the attacker's data did. Any other failure on this topology is judged strictly.
-			fkey := ""
-			if topo == "shared-island" && strings.EqualFold(target, "sub.zone.tld.") && m.AuthenticatedData &&
-				(dataOK || tam == "ds-swap" || tam == "island-hijack") {
-				fkey = "unsigned-ds-trust-link"
-			}
-			// F11, tagged by what is observed: SERVFAIL toward an EDNS client that still carries the outer DNAME/CNAME of the chain
-			// and no Extended DNS Error — answer() copied the rcode of the failed target leg into the reply, not its EDE
-			if fkey == "" && !cd && ed && m.Rcode == dns.RcodeServerFailure && !vC01HasEDE(m) && len(dnsutil.ExtractRRSet(m.Answer, "", dns.TypeDNAME)) > 0 {
-				fkey = "dname-leg-servfail-without-ede"
-			}
 			k := fmt.Sprintf("lab:%s:%s", topo, tam)
 			if origin != "" {
 				k = origin + ":" + k
@@ -1216,9 +1203,6 @@ func TestVerifC01Lab(t *testing.T) {
 					"rcode": dns.RcodeToString[m.Rcode], "ad": m.AuthenticatedData, "ede": vC01HasEDE(m), "answer": vC01Pres(m.Answer), "data_ok": dataOK, "zone_secure_in_truth": tz.secure, "upstream_queries": after - before}}
 			if goFail != "" {
 				rec["go_fail"] = goFail
-			}
-			if fkey != "" {
-				rec["fkey"] = fkey
 			}
 			tr.emit(rec)
 		}
